@@ -74,6 +74,7 @@ def run(ctx, prop):
     nontrivial = set()
     classes = {}
     samples = []
+    same_message = 0
     for r in rows:
         cid, mflag, got, direct, what = r[:5]
         req = r[5:]
@@ -91,6 +92,8 @@ def run(ctx, prop):
         elif got.startswith("O:"):
             nontrivial.add(digest)
         sreq = [short(x) for x in req]
+        if direct == "ok:same-message":
+            same_message += 1
         # 1. direct oracle on the implementation (independent of the model)
         if direct.startswith("bad:"):
             why = direct[4:]
@@ -118,7 +121,8 @@ def run(ctx, prop):
         if len(samples) < 8 and evals % max(1, len(rows) // 8) == 1:
             samples.append({"case": what, "request": sreq, "implementation": short(got, 64), "model": short(model.get(cid, "(implementation only)"), 64)})
     return pr, {"evaluations": evals, "with_model": with_model, "distinct_nontrivial": len(nontrivial), "samples": samples,
-                "input_distribution": stats, "result_classes": classes, "disagreements_checked": disagreements}
+                "input_distribution": stats, "result_classes": classes, "disagreements_checked": disagreements,
+                "altered_packets_accepted_with_the_sealed_message": same_message}
 
 
 def replay(ctx, path, prop, rerun):
